@@ -414,6 +414,16 @@ _OPERATOR_BIN = {"add": ast.Add, "sub": ast.Sub, "mul": ast.Mult, "mod": ast.Mod
                  "xor": ast.BitXor, "lshift": ast.LShift, "rshift": ast.RShift, "concat": ast.Add}
 
 
+def _class_of_instance(e: ast.expr):
+    """x for `type(x)` / `x.__class__` (the class of the object x), else None"""
+    if isinstance(e, ast.Call) and isinstance(e.func, ast.Name) and e.func.id == "type" and len(e.args) == 1 and not e.keywords \
+            and not isinstance(e.args[0], ast.Starred):
+        return e.args[0]
+    if isinstance(e, ast.Attribute) and e.attr == "__class__":
+        return e.value
+    return None
+
+
 class _Run:
     def __init__(self, fi: FuncInfo, preset: dict, prefix: list, repo=None, driver=None) -> None:
         self.fi = fi
@@ -1068,6 +1078,8 @@ class _Run:
                 break
         if isinstance(fn, ast.Name) and cands and cands[0].name == "__init__":
             return None
+        if isinstance(fn, ast.Attribute) and not cands:
+            cands = self.receiver_methods(fn)
         if isinstance(fn, ast.Name) and not cands:
             # a plain function name found in a class-level dispatch table: the method of that name (called with an explicit self)
             for fi in (self.frames[-1], self.fi):
@@ -1078,6 +1090,75 @@ class _Run:
         if len(cands) != 1 or not _is_new(cands[0]) or cands[0].node in self.active:
             return None
         return cands[0]
+
+    def param_class(self, name: str) -> ClassInfo | None:
+        """class of the parameter `name` of the evaluated function (or of the helper being followed) as its annotation gives it:
+        a class of the repository, `A | None`, a quoted annotation, or a TypeVar bound to such a class"""
+        for node, module in self.symbol_scopes():
+            a = node.args
+            for p in a.posonlyargs + a.args + a.kwonlyargs:
+                if p.arg != name:
+                    continue
+                if p.annotation is None:
+                    return None
+                ann = p.annotation
+                if isinstance(ann, ast.Constant) and isinstance(ann.value, str):
+                    try:
+                        ann = ast.parse(ann.value, mode="eval").body
+                    except SyntaxError:
+                        return None
+                if isinstance(ann, ast.BinOp) and isinstance(ann.op, ast.BitOr):
+                    sides = [x for x in (ann.left, ann.right) if not (isinstance(x, ast.Constant) and x.value is None)]
+                    if len(sides) != 1:
+                        return None
+                    ann = sides[0]
+                try:
+                    c = self.repo.resolve_class_expr(module, ann)
+                    if c is None and isinstance(ann, ast.Name):
+                        r = self.repo.resolve_name(module, ann.id)
+                        if isinstance(r, tuple) and r and r[0] == "const" and isinstance(r[2], ast.Call) \
+                                and (chain(r[2].func) or "").split(".")[-1] == "TypeVar" and _bound_once(r[1], ann.id):
+                            b = next((k.value for k in r[2].keywords if k.arg == "bound"), None)
+                            if isinstance(b, ast.Constant) and isinstance(b.value, str):
+                                b = ast.parse(b.value, mode="eval").body
+                            c = self.repo.resolve_class_expr(r[1], b) if b is not None else None
+                except (AttributeError, KeyError, TypeError, SyntaxError):
+                    c = None
+                return c if isinstance(c, ClassInfo) else None
+        return None
+
+    def symbol_scopes(self) -> list:
+        """[(function node, its module)] of the functions whose parameters can be symbolic names of this evaluation, outermost first:
+        the evaluated function itself, then the wrappers / closures / helpers entered from it"""
+        out = []
+        for n in [self.fi.node, *self.active]:
+            try:
+                m = self.repo.module_of(n)
+            except (AttributeError, KeyError, TypeError):
+                m = None
+            out.append((n, m if m is not None else self.fi.module))
+        return out
+
+    def receiver_methods(self, fn: ast.Attribute) -> list[FuncInfo]:
+        """possible targets of `recv.m(...)` made OUTSIDE a class body (a module-level wrapper / closure / helper whose first parameter
+        is the overlay): m is a name the reviewed tree does not have; the receiver is a parameter of the evaluated function whose
+        annotation names a class (dispatch over that class and its subclasses), or - with no usable annotation - any class of the
+        repository that defines m (closed world: the over-approximation `resolve_call` makes for self.m inside a class)"""
+        recv = _class_of_instance(fn.value) or fn.value  # `type(x).m(x, ...)` / `x.__class__.m(x, ...)`: the same lookup as x.m
+        if not isinstance(recv, ast.Name) or recv.id in self.closures or recv.id in self.local_classes:
+            return []
+        held = self.env.get(recv.id)
+        if held is not None and not (isinstance(held, ast.Name) and held.id == recv.id):
+            return []                                    # a local of this frame, not the symbolic parameter of that name
+        if not any(recv.id in [p.arg for p in n.args.posonlyargs + n.args.args + n.args.kwonlyargs] for n, _ in self.symbol_scopes()):
+            return []
+        c = self.param_class(recv.id)
+        try:
+            if c is not None:
+                return list(self.repo.dispatch(c, fn.attr))
+            return [k.methods[fn.attr] for k in self.repo.all_classes() if fn.attr in k.methods]
+        except (AttributeError, KeyError, TypeError):
+            return []
 
     def new_decorators(self, tgt: FuncInfo) -> list:
         """[(decorator expression, its definition)] for the decorators of tgt that are functions the reviewed tree does not have:
@@ -1146,7 +1227,10 @@ class _Run:
         bound_self = self_value                       # the receiver, when the caller knows it (methods of objects created on this path)
         if bound_self is None and isinstance(tgt, FuncInfo) and tgt.cls is not None and isinstance(fn, ast.Attribute):
             decos = set(tgt.decorator_names())
-            if "staticmethod" not in decos:
+            if _class_of_instance(fn.value) is not None:
+                # looked up on the class of an object: only a classmethod binds (the class); a plain method gets its receiver explicitly
+                bound_self = fn.value if "classmethod" in decos else None
+            elif "staticmethod" not in decos:
                 explicit = "classmethod" not in decos and self.repo is not None and isinstance(fn.value, ast.Name) \
                     and fn.value.id not in ("self", "cls") and isinstance(self.repo.resolve_class_expr(self.fi.module, fn.value), ClassInfo)
                 if not explicit:
